@@ -123,3 +123,7 @@ PROPS["C15"]["rule"] += " C15T <hex> p: every fifth case also on a mux whose met
 PROPS["C14"]["rule"] += (" The stats-handler variant (+s) redacts its own view of the request header (InHeader.Header); a method Down is written through "
                           "larking.AsHTTPBodyWriter (proto bodywriter: no trailers on the wire); trailer values carrying CR / LF must arrive sanitised or not at all.")
 PROPS["C15"]["rule"] += " C15E <d>: the grpc-timeout header a grpc-go client writes for a context with d ns left (around every change of unit, round values, log-uniform above 2 s), recorded by a cleartext HTTP/2 server; the model TimeoutForward.encode_duration must write the same (value, unit) for value x unit, and value x unit must lie in [d - 2 s, d + one unit]."
+for _p in ("C01", "C02", "C16"):
+    PROPS[_p]["rule"] += (" Since round 7 a WebSocket handshake is answered through a response writer that can be hijacked (an in-memory pipe; the client "
+                          "side sends one empty JSON message and a close frame): it reaches its method and is judged in full (soundness, completeness, "
+                          "model), also by the RD cases of C11; one rule verb in eight is the custom kind WEBSOCKET.")
